@@ -85,5 +85,11 @@ check("C12", "other",
       "CFG nil-check-before-deref analysis over call sites of nil-returning functions; exhaustiveness of panicking switches against produced constants / grammar productions; simulation of decoded lexer tables (constants in source) against unescape's case labels; must-precede diagnostics rule",
       "DESIGN.md 3/C12")
 
-for pid in ["C14","C15","C17"]:
+check("C17", "other",
+      "Every constraint listed in the statement has an enforcing site that is found semantically: an error logged under the condition that detects the fault, in the function responsible (uniqueness through the single name table from all five declaring node types, naming rules before registration, undefined / wrong-kind references, unknown / ambiguous / empty literals on both the lexer and the parser side, the alias condition, macro cycles, exactly one @start, @discard/@emit placement, class range order, @list parameter shape); every Errorf of internal/ast and internal/parser is positioned at the declaration under check, of a type that receives bounds from the front end; analysis stops after a failing pass / file.",
+      "Not decided: that well-formed specifications are never rejected (only the alias condition and the reserved names are checked from that side), and exact line:column values.",
+      "constraint table -> guarded-diagnostic search over typed AST (condition predicate + ErrLogger call in the responsible function); provenance rule for diagnostic positions (receiver/parameter/token, never a looked-up node)",
+      "DESIGN.md 3/C17")
+
+for pid in ["C14","C15"]:
     na(pid, "check under construction in this session; see DESIGN.md section 3 for the planned rules")
